@@ -155,3 +155,127 @@ def const_item_of(facts, body, operand, depth=0):
         if rv['r'] == 'ref':
             return const_item_of(facts, body, {'o': 'copy', 'p': rv['p']}, depth + 1)
     return None
+
+
+# ---------------------------------------------------------------------------------------------------
+# Structural expressions of operands (value numbering over single-definition chains; no paths, no loops)
+def expr_of(facts, body, operand, depth=0, memo=None):
+    """Nested-tuple expression of an operand:
+       ('c', value) ('param', k, fields) ('op', name, e1, e2) ('un', name, e) ('cast', to, e) ('call', callee, e...)
+       ('fld', e, fields) ('len', e) ('multi', local) ('agg', tag, e...) ('ref', e)
+    Checked arithmetic `(XWithOverflow(a,b)).0` is read as X(a,b)."""
+    D = defs_of(body)
+    if memo is None: memo = {}
+    if depth > 60:
+        return ('deep',)
+    if operand['o'] == 'const':
+        if 'fn' in operand: return ('fn', operand.get('resolved') or operand['fn'])
+        v = const_value(operand)
+        if v is not None: return ('c', v)
+        if 'uneval' in operand: return ('item', const_item_of(facts, body, operand) or operand['uneval'])
+        if 'static' in operand: return ('static', operand['static'])
+        return ('k', operand.get('txt'))
+    return expr_of_place(facts, body, operand['p'], depth, memo)
+
+
+def _proj_key(proj):
+    out = []
+    for e in proj:
+        k = e['p']
+        if k == 'deref': continue
+        if k == 'field': out.append(e['i'])
+        elif k == 'downcast': out.append(('as', e['v']))
+        elif k == 'index': out.append(('idx', e['l']))
+        elif k == 'cindex': out.append(('cidx', e['off'], e['end']))
+        else: out.append((k,))
+    return tuple(out)
+
+
+def expr_of_place(facts, body, p, depth=0, memo=None):
+    D = defs_of(body)
+    if memo is None: memo = {}
+    o = D.origin_place(p)
+    refs = 0
+    while o[0] == 'ref':
+        o = o[1]; refs += 1
+    k = o[0]
+    if k == 'param':
+        return ('param', o[1], _proj_key(o[2]))
+    if k == 'multi':
+        pk = _proj_key(o[2])
+        return ('multi', o[1], pk) if pk else ('multi', o[1])
+    if k == 'const':
+        if o[1] is not None: return ('c', o[1])
+        return expr_of(facts, body, o[2], depth + 1, memo)
+    if k == 'fn':
+        return ('fn', o[1])
+    if k == 'call':
+        t = o[2]; proj = o[3]
+        key = ('call', id(t))
+        if key not in memo:
+            memo[key] = ('pending',)
+            name = facts.callee_name(t)
+            memo[key] = ('call', name) + tuple(expr_of(facts, body, a, depth + 1, memo) for a in t['args'])
+        e = memo[key]
+        pk = _proj_key(proj)
+        return ('fld', e, pk) if pk else e
+    if k == 'rv':
+        s = o[2]; proj = o[3]
+        key = ('rv', id(s))
+        if key not in memo:
+            memo[key] = ('pending',)
+            memo[key] = _expr_rv(facts, body, s['rv'], depth + 1, memo)
+        e = memo[key]
+        pk = _proj_key(proj)
+        if pk and e[0] == 'op' and e[1].endswith('WithOverflow'):
+            if pk == (0,): return ('op', e[1][:-len('WithOverflow')], e[2], e[3])
+            if pk == (1,): return ('ovf', e)
+        if pk and e[0] == 'agg' and isinstance(pk[0], int) and pk[0] < len(e) - 2:
+            sub = e[2 + pk[0]]
+            return ('fld', sub, pk[1:]) if pk[1:] else sub
+        if pk and e[0] == 'agg' and isinstance(pk[0], tuple) and pk[0][0] == 'as' and len(pk) > 1 and isinstance(pk[1], int) and pk[1] < len(e) - 2:
+            sub = e[2 + pk[1]]
+            return ('fld', sub, pk[2:]) if pk[2:] else sub
+        return ('fld', e, pk) if pk else e
+    return ('?', k)
+
+
+def _expr_rv(facts, body, rv, depth, memo):
+    k = rv['r']
+    if k == 'use': return expr_of(facts, body, rv['a'], depth, memo)
+    if k == 'bin': return ('op', rv['op'], expr_of(facts, body, rv['a'], depth, memo), expr_of(facts, body, rv['b'], depth, memo))
+    if k == 'un':
+        if rv['op'] == 'PtrMetadata': return ('len', expr_of(facts, body, rv['a'], depth, memo))
+        return ('un', rv['op'], expr_of(facts, body, rv['a'], depth, memo))
+    if k == 'cast':
+        return ('cast', rv['to']['s'], expr_of(facts, body, rv['a'], depth, memo))
+    if k == 'ref': return expr_of_place(facts, body, rv['p'], depth, memo)
+    if k == 'discr': return ('discr', expr_of_place(facts, body, rv['p'], depth, memo))
+    if k == 'agg':
+        kd = rv['kind']
+        tag = kd.get('vname') or kd['a']
+        return ('agg', tag) + tuple(expr_of(facts, body, o, depth, memo) for o in rv['ops'])
+    if k == 'repeat': return ('repeat', expr_of(facts, body, rv['a'], depth, memo), rv['n'])
+    return ('rv?', k)
+
+
+def strip_casts(e):
+    while isinstance(e, tuple) and e and e[0] == 'cast':
+        e = e[2]
+    return e
+
+
+def expr_str(e, names=None):
+    if not isinstance(e, tuple): return str(e)
+    k = e[0]
+    if k == 'c': return str(e[1])
+    if k == 'param': return 'arg%d%s' % (e[1], ''.join('.%s' % (x,) for x in e[2]))
+    if k == 'multi': return '_%d%s' % (e[1], ''.join('.%s' % (x,) for x in (e[2] if len(e) > 2 else ())))
+    if k == 'op': return '%s(%s, %s)' % (e[1], expr_str(e[2]), expr_str(e[3]))
+    if k == 'un': return '%s(%s)' % (e[1], expr_str(e[2]))
+    if k == 'cast': return '(%s as %s)' % (expr_str(e[2]), e[1])
+    if k == 'call': return '%s(%s)' % (e[1].split('::')[-1] if '>::' not in e[1] else e[1].split('>::')[-1], ', '.join(expr_str(x) for x in e[2:]))
+    if k == 'fld': return '%s%s' % (expr_str(e[1]), ''.join('.%s' % (x,) for x in e[2]))
+    if k == 'len': return 'len(%s)' % expr_str(e[1])
+    if k == 'agg': return '%s(%s)' % (e[1], ', '.join(expr_str(x) for x in e[2:]))
+    return str(e)
